@@ -382,14 +382,17 @@ B("C05", "power-test-before-dagger", (SER, """    elif dict_["name"].endswith(_g
         wrapped_gate = _gate_from_dict(dict_["wrapped_gate"], custom_gate_defs)
         return _gates.Exponential(wrapped_gate)
 """), rule="C05-D4")
-B("C05", "mutable-default-symbol-table", (SER, """def _make_symbols_map(
-    symbol_names: Iterable[str],
-) -> Dict[str, Union[sympy.Symbol, Dict[int, sympy.Symbol]]]:
-    symbols_map: Dict[str, Union[sympy.Symbol, Dict[int, sympy.Symbol]]] = {}
-""", """def _make_symbols_map(
-    symbol_names: Iterable[str],
-    symbols_map: Dict[str, Union[sympy.Symbol, Dict[int, sympy.Symbol]]] = {},
-) -> Dict[str, Union[sympy.Symbol, Dict[int, sympy.Symbol]]]:
+B("C05", "mutable-default-symbol-table", (SER, """def deserialize_expr(expr_str, symbol_names):
+    symbols_map: Dict[str, sympy.Symbol] = {}
+""", """def deserialize_expr(expr_str, symbol_names, symbols_map: Dict[str, sympy.Symbol] = {}):
+"""), rule="C05-D5")
+B("C05", "indexed-symbols-as-items-of-their-base", (SER, """        if re.search(r"^(.*)\\[([0-9]+)\\]$", name):
+            placeholder = f"_indexed_symbol_{position}_"
+            expr_str = re.sub(r"(?<![\\w.])" + re.escape(name), placeholder, expr_str)
+            symbols_map[placeholder] = sympy.Symbol(name)
+""", """        match = re.search(r"^(.*)\\[([0-9]+)\\]$", name)
+        if match:
+            symbols_map.setdefault(match.group(1), {})[int(match.group(2))] = sympy.Symbol(name)
 """), rule="C05-D5")
 B("C05", "n-qubits-conditional", (SER, '        "n_qubits": circuit.n_qubits,\n', '        **({"n_qubits": circuit.n_qubits} if circuit.operations else {}),\n'), rule="C05-D1")
 B("C05", "wrapped-definitions-not-threaded", (SER, """    if dict_["name"] == _gates.CONTROLLED_GATE_NAME:
@@ -834,7 +837,7 @@ B("C04", "parity-columns-mirrored", (PAR, "    bitstring_subset = bitstrings_vec
 B("C04", "frequencies-sorted-separately", (MEAS, "        np.fromiter(bitstring_frequencies.values(), dtype=int) * parity", "        np.fromiter(sorted(bitstring_frequencies.values()), dtype=int) * parity"), rule="C04-D2")
 B("C04", "exact-distribution-digits-descending", (DIST, "    keys = product([0, 1], repeat=int(np.log2(len(prob_distribution))))", "    keys = product([1, 0], repeat=int(np.log2(len(prob_distribution))))"), rule="C04-D3")
 B("C04", "exact-distribution-key-reversed", (DIST, "        key: float(value) for key, value in zip(keys, prob_distribution)", "        key[::-1]: float(value) for key, value in zip(keys, prob_distribution)"), rule="C04-D3")
-B("C04", "string-keys-reversed", (DIST, 'res_dict[tuple(map(int, key if "," not in key else key.split(",")))] = value', 'res_dict[tuple(map(int, key[::-1] if "," not in key else key.split(",")))] = value'), rule="C04-D3")
+B("C04", "string-keys-reversed", (DIST, 'tuple(map(int, key if "," not in key else key.rstrip(",").split(",")))', 'tuple(map(int, key[::-1] if "," not in key else key.rstrip(",").split(",")))'), rule="C04-D3")
 B("C04", "sparse-descending-qubits", (SPT, "        for qubit_num, operator_str in sorted(qubit_term.operations):", "        for qubit_num, operator_str in sorted(qubit_term.operations, reverse=True):"), rule="C04-D4")
 B("C04", "sparse-kron-swapped", (SPT, '    return scipy.sparse.kron(operator_1, operator_2, "csc")', '    return scipy.sparse.kron(operator_2, operator_1, "csc")'), rule="C04-D4")
 B("C04", "expectation-reverses-by-default", (OUT, "    reverse_operator: bool = False,\n) -> complex:", "    reverse_operator: bool = True,\n) -> complex:"), rule="C04-D4")
